@@ -9,7 +9,8 @@ wrapper adds one more level (the repository's documented alternative counting mo
 from __future__ import annotations
 
 import typing
-from typing import Union, get_args, get_origin
+from abc import ABC
+from typing import Generic, Protocol, Union, get_args, get_origin
 
 from vf.oracles.typing import BASE, direct_productions, fields, is_abstract
 
@@ -49,6 +50,17 @@ class Analysis:
                             if m not in self.classes:
                                 self.classes.append(m)
                                 grew = True
+            # a supplied class below an abstract symbol is derivable from it: the classes between
+            # the two are symbols as well, whether or not they were listed
+            for c in list(self.classes):
+                if not isinstance(c, type):
+                    continue
+                for b in c.__mro__[1:]:
+                    if b in self.classes or b in (object, ABC, Protocol, Generic):
+                        continue
+                    if any(isinstance(a, type) and is_abstract(a) and a is not b and issubclass(b, a) for a in self.classes):
+                        self.classes.append(b)
+                        grew = True
         self.exp = 1 if expansion_depthing else 0
         self.nonempty = lists_transparent_nonempty
         self.symbols = self._reachable()
